@@ -62,13 +62,9 @@ func checkTypeAccessorTables(res *Result, rule string, only map[string]bool) {
 			nGet++
 			seen := map[string]bool{}
 			var bad []string
-			ast.Inspect(fd.Body, func(n ast.Node) bool {
-				ifs, ok := n.(*ast.IfStmt)
-				if !ok {
-					return true
-				}
+			row := func(cond ast.Expr, body []ast.Stmt) {
 				isX := ""
-				ast.Inspect(ifs.Cond, func(m ast.Node) bool {
+				ast.Inspect(cond, func(m ast.Node) bool {
 					if c, ok := m.(*ast.CallExpr); ok {
 						if sel, ok := c.Fun.(*ast.SelectorExpr); ok && isIdentNamed(sel.X, "this") && strings.HasPrefix(sel.Sel.Name, "Is") {
 							isX = strings.TrimPrefix(sel.Sel.Name, "Is")
@@ -77,10 +73,10 @@ func checkTypeAccessorTables(res *Result, rule string, only map[string]bool) {
 					return true
 				})
 				if isX == "" {
-					return true
+					return
 				}
 				getX := ""
-				for _, st := range ifs.Body.List {
+				for _, st := range body {
 					if r, ok := st.(*ast.ReturnStmt); ok && len(r.Results) == 1 {
 						if c, ok := r.Results[0].(*ast.CallExpr); ok {
 							if sel, ok := c.Fun.(*ast.SelectorExpr); ok && isIdentNamed(sel.X, "this") && strings.HasPrefix(sel.Sel.Name, "Get") {
@@ -90,7 +86,7 @@ func checkTypeAccessorTables(res *Result, rule string, only map[string]bool) {
 					}
 				}
 				if kinds[isX] == nil {
-					return true // a test of another kind (IRI, literal): not a table row
+					return // a test of another kind (IRI, literal): not a table row
 				}
 				seen[isX] = true
 				if getX == "" && len(pm.Members) == 1 {
@@ -98,6 +94,22 @@ func checkTypeAccessorTables(res *Result, rule string, only map[string]bool) {
 				}
 				if getX != isX {
 					bad = append(bad, fmt.Sprintf("where Is%s holds Get%s is returned", isX, getX))
+				}
+			}
+			ast.Inspect(fd.Body, func(n ast.Node) bool {
+				switch x := n.(type) {
+				case *ast.IfStmt:
+					row(x.Cond, x.Body.List)
+				case *ast.SwitchStmt:
+					if x.Tag == nil {
+						for _, cl := range x.Body.List {
+							if cc, ok := cl.(*ast.CaseClause); ok {
+								for _, e := range cc.List {
+									row(e, cc.Body)
+								}
+							}
+						}
+					}
 				}
 				return true
 			})
@@ -116,19 +128,35 @@ func checkTypeAccessorTables(res *Result, rule string, only map[string]bool) {
 			nSet++
 			seen := map[string]bool{}
 			var bad []string
-			for _, st := range fd.Body.List {
-				ifs, ok := st.(*ast.IfStmt)
-				if !ok || ifs.Init == nil {
-					continue
+			type setRow struct {
+				typ  ast.Expr
+				body ast.Node
+			}
+			var rows []setRow
+			ast.Inspect(fd.Body, func(n ast.Node) bool {
+				switch x := n.(type) {
+				case *ast.IfStmt:
+					if x.Init != nil {
+						if as, ok := x.Init.(*ast.AssignStmt); ok && len(as.Rhs) == 1 {
+							if ta, ok := as.Rhs[0].(*ast.TypeAssertExpr); ok && ta.Type != nil {
+								rows = append(rows, setRow{ta.Type, x.Body})
+							}
+						}
+					}
+				case *ast.TypeSwitchStmt:
+					for _, cl := range x.Body.List {
+						if cc, ok := cl.(*ast.CaseClause); ok {
+							for _, e := range cc.List {
+								rows = append(rows, setRow{e, &ast.BlockStmt{List: cc.Body}})
+							}
+						}
+					}
 				}
-				as, ok := ifs.Init.(*ast.AssignStmt)
-				if !ok || len(as.Rhs) != 1 {
-					continue
-				}
-				ta, ok := as.Rhs[0].(*ast.TypeAssertExpr)
-				if !ok || ta.Type == nil {
-					continue
-				}
+				return true
+			})
+			for _, rw := range rows {
+				ta := struct{ Type ast.Expr }{rw.typ}
+				ifs := struct{ Body ast.Node }{rw.body}
 				iface := namedOf(info.TypeOf(ta.Type))
 				setX := ""
 				ast.Inspect(ifs.Body, func(m ast.Node) bool {
